@@ -24,6 +24,7 @@ __all__ = [
     "T", "U", "TB", "TC", "Tr", "TrSub", "WithX", "Closer", "R0", "R1", "R2", "R3",
     "Any", "Callable", "Generic", "Optional", "Protocol", "TypeVar", "Union", "Boom",
     "opaque_int", "opaque_str", "tick", "it", "site", "Cut",
+    "is_int", "is_str", "is_a", "is_str_list",
 ]
 
 
@@ -225,3 +226,23 @@ def site(x: object, n: int) -> None:
 
 _trace = []
 _cut = [False]
+
+
+# ----------------------------------------------------------------- narrowing helpers (C01/C02)
+from typing_extensions import TypeGuard, TypeIs  # noqa: E402
+
+
+def is_int(x: object) -> TypeIs[int]:
+    return isinstance(x, int)
+
+
+def is_str(x: object) -> TypeIs[str]:
+    return isinstance(x, str)
+
+
+def is_a(x: object) -> TypeIs[A]:
+    return isinstance(x, A)
+
+
+def is_str_list(x: "list[object]") -> TypeGuard["list[str]"]:
+    return all(isinstance(e, str) for e in x)
